@@ -1012,11 +1012,12 @@ def macro_wrap(lines, counts):
 
 
 GHOST_FIELDS = [
-    # (struct header regex, last field regex inside it, field to add, constructor literal regex, replacement)
-    ('G1:SpiInterface.ghost_trace', r"pub struct SpiInterface<'a, SPI, DC> \{", r"buffer: &'a mut \[u8\],",
-     " pub ghost_trace: Ghost<Seq<crate::vf::Ev<u8>>>,", r"Self \{ spi, dc, buffer \}", "Self { spi, dc, buffer, ghost_trace: Ghost(Seq::empty()) }"),
-    ('G1:ParallelInterface.ghost_trace', r"pub struct ParallelInterface<BUS, DC, WR> \{", r"wr: WR,",
-     " pub ghost_trace: Ghost<Seq<crate::vf::Ev<BUS::Word>>>,", r"Self \{ bus, dc, wr \}", "Self { bus, dc, wr, ghost_trace: Ghost(Seq::empty()) }"),
+    # (struct header regex, field to add right after the header, constructor literal regex (first fields; further fields that a
+    #  change to /repo adds are kept), what to append to the literal)
+    ('G1:SpiInterface.ghost_trace', r"pub struct SpiInterface<'a, SPI, DC> \{",
+     " pub ghost_trace: Ghost<Seq<crate::vf::Ev<u8>>>,", r"Self \{\s*spi,\s*dc,\s*buffer\b([^{}]*)\}"),
+    ('G1:ParallelInterface.ghost_trace', r"pub struct ParallelInterface<BUS, DC, WR> \{",
+     " pub ghost_trace: Ghost<Seq<crate::vf::Ev<BUS::Word>>>,", r"Self \{\s*bus,\s*dc,\s*wr\b([^{}]*)\}"),
 ]
 
 
@@ -1024,17 +1025,20 @@ def ghost_fields(lines, counts):
     """G1: ghost instrumentation (erased at compile time, cannot influence executable code): the two built-in transports
     get a `ghost_trace` field recording what crossed the Interface boundary; their constructors initialise it empty."""
     text = '\n'.join(l.text for l in lines)
-    for name, hdr, last, add, ctor, ctor2 in GHOST_FIELDS:
+    for name, hdr, add, ctor in GHOST_FIELDS:
         mh = re.search(hdr, text)
         if not mh:
             raise Undecided('%s: struct not found' % name)
-        ml = re.compile(last).search(text, mh.end())
-        if not ml or text.find('}', mh.end()) < ml.start():
-            raise Undecided('%s: field anchor not found' % name)
-        text = text[:ml.end()] + add + text[ml.end():]
-        text, k = re.subn(ctor, ctor2, text)
-        if k != 1:
-            raise Undecided('%s: constructor literal matched %d times' % (name, k))
+        text = text[:mh.end()] + add + text[mh.end():]
+        ms = list(re.finditer(ctor, text))
+        if len(ms) != 1:
+            raise Undecided('%s: constructor literal matched %d times' % (name, len(ms)))
+        m = ms[0]
+        lit = m.group(0)
+        body = lit[:-1].rstrip()
+        sep = '' if body.endswith(',') else ','
+        lit2 = body + sep + ' ghost_trace: Ghost(Seq::empty()) ' + lit[len(lit[:-1].rstrip()):]
+        text = text[:m.start()] + lit2 + text[m.end():]
         counts[name] = 1
     # G1b: the ghost field's type mentions BUS::Word, so the struct gets the bound every impl already has
     text, k = re.subn(r"pub struct ParallelInterface<BUS, DC, WR> \{", "pub struct ParallelInterface<BUS: OutputBus, DC, WR> {", text)
@@ -1074,6 +1078,80 @@ def macro_external(lines, counts):
         l.text = t
 
 
+COMPLETED_STRUCTS = ['PixelRow', 'PixelBlock', 'Orientation', 'MemoryMapping']
+
+
+def _match_brace(text, i):
+    """index of the brace matching text[i] == '{'"""
+    d = 0
+    for j in range(i, len(text)):
+        if text[j] == '{':
+            d += 1
+        elif text[j] == '}':
+            d -= 1
+            if d == 0:
+                return j
+    return -1
+
+
+def complete_spec_literals(out, counts):
+    """G2: struct literals of /repo's own structs inside the injected specification text name the fields the struct has on
+    the unchanged tree.  If a change to /repo ADDS a field, the literal is completed with `field: arbitrary()` (an unknown
+    value), so that the specification still type-checks and the functions that build such values are judged against it
+    instead of the whole crate leaving the verifier's reach.  Literals that are already complete (all of /repo's own) are
+    left alone; nothing is done on the unchanged tree (count 0)."""
+    text = '\n'.join(l.text for l in out)
+    n_done = 0
+    for name in COMPLETED_STRUCTS:
+        md = re.search(r'\bstruct %s\b[^{;]*\{' % name, text)
+        if not md:
+            continue
+        e = _match_brace(text, md.end() - 1)
+        body = text[md.end():e]
+        fields = re.findall(r'(?:^|[,{\n])\s*(?:#\[[^\]]*\]\s*)*(?:pub(?:\([^)]*\))?\s+)?(\w+)\s*:', body)
+        pos = 0
+        while True:
+            m = re.compile(r'\b%s\s*(?:::<[^{}]*?>)?\s*\{' % name).search(text, pos)
+            if not m:
+                break
+            pos = m.end()
+            before = text[:m.start()].rstrip()
+            if re.search(r'\b(struct|impl|for|enum|trait)$', before) or (md.start() <= m.start() < e):
+                continue
+            j = _match_brace(text, m.end() - 1)
+            if j < 0:
+                continue
+            lit = text[m.end():j]
+            if 'fn ' in lit or ';' in lit or '..' in lit:
+                continue
+            # field names at depth 0 of the literal
+            depth = 0
+            flat = ''
+            for ch in lit:
+                if ch in '([{':
+                    depth += 1
+                elif ch in ')]}':
+                    depth -= 1
+                flat += ch if depth == 0 else ' '
+            have = set(re.findall(r'(?:^|,)\s*(\w+)\s*(?=:(?!:)|,|$)', flat))
+            missing = [f for f in fields if f not in have]
+            if not missing or not have:
+                continue
+            add = ''.join(', %s: vstd::pervasive::arbitrary()' % f for f in missing)
+            stripped = lit.rstrip()
+            if stripped.endswith(','):
+                add = add[1:] + ','
+            ins_at = m.end() + len(stripped)
+            text = text[:ins_at] + add + text[ins_at:]
+            pos = ins_at + len(add)
+            e += len(add) if ins_at < e else 0
+            n_done += 1
+    if n_done:
+        counts['G2:spec-literal-completed'] = n_done
+        for l, tt in zip(out, text.split('\n')):
+            l.text = tt
+
+
 def extract(repo, verif, cfg, extra_external=(), canary=False):
     """Returns (file text, line origins list, counts, report)."""
     counts = OrderedDict()
@@ -1102,6 +1180,7 @@ def extract(repo, verif, cfg, extra_external=(), canary=False):
     if canary:
         out += [Line('pub mod vfc { use vstd::prelude::*; %s }' % ' '.join('pub uninterp spec fn c%d() -> bool;' % i for i in range(len(report.get('canaries', [])))), ('gen', 'canary flags'))]
     out += [Line('} // verus!', ('gen', 'footer'))]
+    complete_spec_literals(out, counts)
     report['contracts'] = {k: {'src': c.src, 'props': c.props} for k, c in contracts.items()}
     return out, counts, report
 
